@@ -121,6 +121,20 @@ def worker(args):
     import importlib
     sub = args["sub"]
     params = args["params"]
+    # the loaded (extrapolated) templates must be what the reference extrapolation of the package's raw templates gives
+    try:
+        import spil_sid_conf as raw
+        from spil import conf
+        from checks.c19 import ref_extrapolate
+        exp, judged = ref_extrapolate(dict(raw.sid_templates), list(raw.to_extrapolate))
+        if judged and [n for n, _t in exp] != list(conf.sid_templates):
+            rec = Rec("C20")
+            rec.ev()
+            rec.violation("c19:loaded_types_differ_from_reference_extrapolation", {"sub": "c19", "conf_params": params},
+                          "expected %r got %r" % ([n for n, _t in exp], list(conf.sid_templates)))
+            return rec.result()
+    except ImportError:
+        pass
     probs = validate(params)
     if probs:
         rec = Rec("C20")
